@@ -570,6 +570,7 @@ func init() {
 		"vauxCell":         primAuxCell,
 		"vsymbolic":        func(m *M, fn *ssa.Function, a []Value) Value { return smt.True },
 		"vfail":            primFail,
+		"vnative":          func(m *M, fn *ssa.Function, a []Value) Value { return smt.False },
 		"vbound": func(m *M, fn *ssa.Function, a []Value) Value {
 			if m.ex.Cfg.Tier == "thorough" {
 				return a[1]
